@@ -219,7 +219,7 @@ func Main() {
 		fmt.Fprintln(os.Stderr, "usage: runner <jobs.json> <out.jsonl>")
 		os.Exit(2)
 	}
-	debug.SetMaxStack(128 << 20) // unbounded recursion aborts quickly and deterministically
+	debug.SetMaxStack(24 << 20) // unbounded recursion aborts quickly and deterministically
 	b, err := os.ReadFile(os.Args[1])
 	if err != nil {
 		fmt.Fprintln(os.Stderr, err)
